@@ -42,7 +42,9 @@ Core Lean only.
 import GopModel.Model.MiniXGo
 namespace GopModel.Mini
 
-def isTmp (x : String) : Bool := x.startsWith "_gop_" || x.startsWith "_autoGo_"
+/-- (Written on character lists so that the kernel can evaluate it.) -/
+def isTmp (x : String) : Bool :=
+  "_gop_".toList.isPrefixOf x.toList || "_autoGo_".toList.isPrefixOf x.toList
 
 /-- `_gop_ret`, `_gop_ret2`, `_gop_ret3`, … paired with the value types. -/
 def retNamesFrom : Nat → List Ty → List (String × Ty)
